@@ -1,5 +1,5 @@
 (* One entry point for the harness: request (list Z) -> reply (list Z). *)
-From JP Require Import Base.Json Extract.Wire Extract.WireAst Model.Slice Spec.Slice Model.Ast Model.Eval Spec.Sem Spec.Compare Model.Tokens Model.Lex Model.PyFloat Model.Parse Model.Api Spec.Rfc9535Grammar Spec.Types Spec.StringLit Model.Position Spec.Position Model.Serialize Spec.NormPath Model.History.
+From JP Require Import Base.Json Extract.Wire Extract.WireAst Model.Slice Spec.Slice Model.Ast Model.Eval Spec.Sem Spec.Compare Model.Tokens Model.Lex Model.PyFloat Model.Parse Model.Api Spec.Rfc9535Grammar Spec.Types Spec.StringLit Model.Position Spec.Position Model.Serialize Spec.NormPath Model.History Model.Descent Model.NdVisit Spec.Nondet.
 
 Definition iota_json (len : Z) : list json := map (fun k => JNum (NInt (Z.of_nat k))) (seq 0 (Z.to_nat len)).
 Definition enc_sel (r : list (Z * json)) : list Z := enc_list (fun p => fst p :: enc_json (snd p)) r.
@@ -174,6 +174,34 @@ Definition op_history (r : list Z) : list Z :=
       | None => bad_request end
   | None => bad_request end.
 
+Definition enc_loc (l : list key) : list Z := enc_list enc_key l.
+(* [10; limit; script; value] -> nondeterministic visit order (locations) *)
+Definition op_nd_visit (r : list Z) : list Z :=
+  match dec_nat r with Some (limit, r0) =>
+  match dec_list dec_z r0 with Some (script, r1) =>
+  match dec_json r1 with Some (v, _) => enc_result (enc_list (fun n => enc_loc (fst n))) (nd_visit limit script ([], v))
+  | None => bad_request end | None => bad_request end | None => bad_request end.
+(* [11; limit; graph] -> locations returned by $..* on possibly self-referential data *)
+Definition dec_cell : dec cell := fun l =>
+  match l with
+  | 0 :: r => Some (CScalar, r)
+  | 1 :: r => match dec_list dec_nat r with Some (ks, r') => Some (CArr ks, r') | None => None end
+  | 2 :: r => match dec_list (dec_pair dec_str dec_nat) r with Some (ks, r') => Some (CObj ks, r') | None => None end
+  | _ => None
+  end.
+Definition op_graph (r : list Z) : list Z :=
+  match dec_nat r with Some (limit, r0) =>
+  match dec_list dec_cell r0 with Some (g, _) => enc_result (enc_list enc_loc) (gdesc_wild g limit)
+  | None => bad_request end | None => bad_request end.
+(* [116; value; order] -> is the visiting order valid?   [117; value] -> every valid order *)
+Definition op_valid_order (r : list Z) : list Z :=
+  match dec_json r with Some (v, r0) =>
+  match dec_list (dec_list dec_key) r0 with Some (o, _) => enc_bool (valid_order ([], v) o)
+  | None => bad_request end | None => bad_request end.
+Definition op_all_orders (r : list Z) : list Z :=
+  match dec_json r with Some (v, _) => enc_list (enc_list (fun n => enc_loc (fst n))) (all_orders ([], v))
+  | None => bad_request end.
+
 (* opcodes: model side 1..99, specification side 101..199 *)
 Definition dispatch (req : list Z) : list Z :=
   match req with
@@ -184,6 +212,8 @@ Definition dispatch (req : list Z) : list Z :=
   | 5 :: r => op_str_query r
   | 6 :: r => op_path r
   | 21 :: r => op_repr r
+  | 10 :: r => op_nd_visit r
+  | 11 :: r => op_graph r
   | 12 :: r => op_history r
   | 19 :: r => op_errpos r
   | 20 :: r => op_float r
@@ -192,6 +222,8 @@ Definition dispatch (req : list Z) : list Z :=
   | 106 :: r => op_cmp r
   | 109 :: r => op_valid r
   | 110 :: r => op_strlit r
+  | 116 :: r => op_valid_order r
+  | 117 :: r => op_all_orders r
   | 118 :: r => op_norm_path r
   | 119 :: r => op_linecol r
   | 7 :: len :: r =>        (* slice selector on [0, 1, ..., len-1] *)
